@@ -95,6 +95,17 @@ def build_case(spec):
         elif form == "range_str":
             text = (f"{marker} = 1" if is_stmt else marker) + (" +" if rw.get("bad") else "")
             old, new, rng = core.Range(*span), text, span
+        elif form == "range_insert":
+            # text inserted at an offset (an empty range): a statement of its own before a statement, an operand before an expression
+            indent = source[source.rfind("\n", 0, span[0]) + 1:span[0]]
+            text = (f"{marker}()\n{indent}" if is_stmt and not indent.strip() else f"{marker} + " if not is_stmt else f"{marker}(); ") + ("(" if rw.get("bad") else "")
+            old, new, rng = core.Range(span[0], span[0]), text, (span[0], span[0])
+        elif form == "range_delete":
+            if not is_stmt:
+                text = marker
+                old, new, rng = core.Range(*span), text, span
+            else:
+                old, new, rng, text = core.Range(*span), "", span, ""
         tup = (old, new) if rw.get("tx") is None else (old, new, rw["tx"])
         per_group.setdefault(rw["group"], []).append(tup)
         planned.append({"marker": marker, "form": form, "range": rng, "tx": rw.get("tx"), "group": rw["group"],
@@ -165,7 +176,12 @@ def w_synth(batch):
         result = first["result"]
         if result is not None:
             if info.get("candidate_valid") is False:
-                pass  # rollback clause (4) already judged by the model
+                # rollback clause (4), judged by the model on the text the implementation itself produced. If the plain splice of the same schedule is a
+                # valid program, it was not "the combined result of the pass" that did not parse: the implementation misplaced a rewrite while applying it
+                ref = sm.splice(source, sched)
+                if result == source and ref != source and sm.valid(ref) and sm.compiles(ref) and sm.compiles(source):
+                    viol.append({"kind": "rolled_back_although_the_spliced_schedule_is_valid",
+                                 "detail": {"expected": ref, "candidate_of_the_implementation": first["do"][-1]["out"] if first.get("do") else None, "scheduled": sched}})
             elif _squash(result) not in _reference_apply(source, sched):
                 viol.append({"kind": "result_differs_from_spliced_schedule",
                              "detail": {"expected": sm.splice(source, sched), "result": result, "scheduled": sched}})
@@ -325,7 +341,7 @@ def w_real(batch):
 
 
 # ------------------------------------------------------------------------------- parent side
-FORMS = ["replace_str", "replace_ast", "range_str", "delete", "insert"]
+FORMS = ["replace_str", "replace_ast", "range_str", "delete", "insert", "range_insert", "range_delete"]
 
 
 def random_specs(n, stream):
@@ -348,7 +364,7 @@ def random_specs(n, stream):
             target = r.choice(pool) if r.random() < 0.6 else r.randrange(ntargets)
             rewrites.append({
                 "target": target,
-                "form": r.choices(FORMS, weights=[4, 3, 3, 2, 2])[0],
+                "form": r.choices(FORMS, weights=[4, 3, 3, 2, 2, 2, 1])[0],
                 "marker": j if r.random() < 0.85 else r.randrange(nrew),
                 "tx": r.choice([None, None] + list(range(1, ntx + 1))),
                 "group": r.randrange(ngroups),
